@@ -114,6 +114,11 @@ func specProgram(p *telemetry.ProgramReport) bool {
 //@   loop 1: invariant u.cache.m == old(u.cache.m) || fresh(u.cache.m)
 //@   loop 2: invariant u.cache.m == old(u.cache.m) || fresh(u.cache.m)
 //@   loop 1: invariant uploaderOK(u) && todo != nil && $fsops == old($fsops) && (len(todo.readyfiles) > 0 ==> $mode == "on") && $mode != "off" && countFiles != nil && earliest != nil
+// The start handed to createReport (compared with the opt-in date) is the
+// earliest begin of the week's files: after an expired file was filed under its
+// week, that week's earliest begin is not after the file's begin.
+//@   at loop 1 end: assert in(expiry, earliest) && !earliest[expiry].After(begin)
+//@   at call createReport#1: assert arg1 == earliest[expiry]
 //@   loop 2: invariant uploaderOK(u) && todo != nil && (len(todo.readyfiles) > 0 ==> $mode == "on") && $mode != "off"
 //@   modifies todo.readyfiles, u.cache.m, entries(u.cache.m), maps(string, int64), $fsops, $reportExists, $contributed, $minsize, $nprog
 
